@@ -53,10 +53,18 @@ def run(cx):
         def call_sym(c, o):
             return None
 
+        def backoff_state(t):
+            g = strip_identity(t)
+            while g[0] in ("field", "variant"):
+                g = strip_identity(g[1])
+            return g[0] == "call" and name_matches(g[1], "HashMap::get") and mentions_upvar(g[2][0], "self__dial_backoff_states") and pid(g[2][1])
+
         def extra(a, bb, subj, labels, o):
             lab = "|".join(sorted(labels))
             if subj[0] == "discr" and mentions_field(subj[1], "affinity") and mentions_param(subj[1], "peer_info"):
                 return "aff=" + lab
+            if subj[0] == "discr" and backoff_state(subj[1]) and not any(x[0] == "variant" for x in walk(strip_identity(subj[1]))):
+                return "backoff-state=" + lab          # the written-out form of `.map(|s| now > s.backoff).unwrap_or(true)`
             n = normalize_cmp(subj)
             if n is not None:
                 neg, op, x, y = n
@@ -92,6 +100,12 @@ def run(cx):
         def call_sym2(c, o):
             if c.dest == 0 and not b.is_cleanup(c.bb):
                 t = strip_identity(("call", c.fn, tuple(o.of_operand(a) for a in c.args), c.bb))
+                if name_matches(c.fn, ("cmp::PartialOrd::gt", "cmp::PartialOrd::ge", "cmp::PartialOrd::lt", "cmp::PartialOrd::le")) and len(t[2]) == 2:
+                    x_, y_ = t[2]
+                    if name_matches(c.fn, ("cmp::PartialOrd::lt", "cmp::PartialOrd::le")):
+                        x_, y_ = y_, x_                 # `backoff < now`  ==  `now > backoff`
+                    if mentions_upvar(x_, "now") and mentions_field(y_, "backoff") and backoff_state(strip_identity(y_)[1] if strip_identity(y_)[0] == "field" else y_):
+                        return "ret=backoff-elapsed"
                 if name_matches(c.fn, "Option::unwrap_or") and const_of(t[2][1]) == "true":
                     m = strip_identity(t[2][0])
                     if m[0] == "call" and name_matches(m[1], "Option::map"):
@@ -124,11 +138,13 @@ def run(cx):
             if odd or len(ret) != 1:
                 ob.fail("refuted", "eligible/unrecognised/" + w.replace(" ", "_")[:140], f"eligibility predicate: unrecognised path `{w}`", b.path, b.loc(), path=w)
                 continue
-            if ret[0] == "ret=backoff-elapsed-or-none" or ret[0] == "ret=true":
+            if ret[0] in ("ret=backoff-elapsed-or-none", "ret=true", "ret=backoff-elapsed"):
                 n_true += 1
                 missing = {k: v for k, v in need.items() if conds.get(k) != v}
-                if ret[0] == "ret=true":
+                if ret[0] == "ret=true" and conds.get("backoff-state") != "None":
                     missing["backoff"] = "elapsed-or-none"
+                if ret[0] == "ret=backoff-elapsed" and conds.get("backoff-state") != "Some":
+                    missing["backoff"] = "state-present"
                 if missing:
                     ob.fail("refuted", "eligible/too-permissive/" + "+".join(sorted(missing)), f"eligibility predicate: path `{w}` answers eligible without requiring {missing}", b.path, b.loc(), path=w)
                 else:
@@ -186,9 +202,27 @@ def run(cx):
         if d is None:
             raise AnchorLost("drain closure")
 
-        def args_ok(c, o, first):
+        def args_ok(c, o, first, kb=None):
+            kb = kb or d
             a = [o.of_operand(x) for x in c.args[first:first + 3]]
-            return strip_identity(a[0]) == ("upvar", "now") and term_has_call(a[1], "anemo::config::Config::connection_backoff") and term_has_call(a[2], "anemo::config::Config::max_connection_backoff")
+            # step / max may be read inside the closure or hoisted out of it and captured
+            a1, a2 = expand_upvars(prog, kb, a[1]), expand_upvars(prog, kb, a[2])
+            a0 = strip_identity(a[0])
+            now_ok = a0 == ("upvar", "now") or (a0[0] == "upvar" and strip_identity(expand_upvars(prog, kb, a0)) in (("upvar", "now"),) ) or \
+                (a0[0] == "upvar" and term_has_call(expand_upvars(prog, kb, a0), "Instant::now"))
+            return now_ok and term_has_call(a1, "anemo::config::Config::connection_backoff") and term_has_call(a2, "anemo::config::Config::max_connection_backoff")
+
+        def upsert(c, o, which):
+            """`entry.and_modify(|s| s.update(now, step, max))` / `.or_insert_with(|| DialBackoffState::new(now, step, max))`"""
+            cl = o.of_operand(c.args[1])
+            kb = prog.bodies.get(cl[2]) if cl[0] == "agg" and cl[1] == "closure" else None
+            if kb is None:
+                return False
+            ko = Origins(kb)
+            cs_ = [x for x in kb.calls() if not kb.is_cleanup(x.bb) and not is_tracing(x)]
+            if which == "update":
+                return len(cs_) == 1 and name_matches(cs_[0].fn, f"{BS}::update") and any(y[0] == "param" for y in walk(ko.of_operand(cs_[0].args[0]))) and args_ok(cs_[0], ko, 1, kb)
+            return len(cs_) == 1 and name_matches(cs_[0].fn, f"{BS}::new") and cs_[0].dest == 0 and args_ok(cs_[0], ko, 0, kb)
 
         def call_sym(c, o):
             if name_matches(c.fn, "tokio::sync::oneshot::Receiver::try_recv"):
@@ -205,6 +239,12 @@ def run(cx):
                 return "new(now,step,max)" if args_ok(c, o, 0) else "new(?)"
             if name_matches(c.fn, "VacantEntry::insert"):
                 return "insert" if term_has_call(o.of_operand(c.args[1]), f"{BS}::new") else "insert(?)"
+            if name_matches(c.fn, "hash::map::Entry::and_modify"):
+                return "and_modify{update(now,step,max)}" if term_has_call(o.of_operand(c.args[0]), "HashMap::entry") and upsert(c, o, "update") else "and_modify(?)"
+            if name_matches(c.fn, "hash::map::Entry::or_insert_with"):
+                return "or_insert_with{new(now,step,max)}" if term_has_call(o.of_operand(c.args[0]), "Entry::and_modify") and upsert(c, o, "new") else "or_insert_with(?)"
+            if name_matches(c.fn, ("hash::map::Entry::or_insert", "hash::map::Entry::or_default", "hash::map::Entry::insert_entry", "HashMap::insert")):
+                return "upsert(?)" + c.fn.split("::")[-1]
             if name_matches(c.fn, "core::panicking::panic_fmt") and (c.exp or "").endswith("panic!"):
                 return "BUG-panic"
             return None
@@ -229,6 +269,10 @@ def run(cx):
         want = {"try_recv recv=Ok inner=Ok clear-backoff keep=false <return>", "try_recv recv=Ok inner=Err entry [Occupied] update(now,step,max) keep=false <return>",
                 "try_recv recv=Ok inner=Err entry [Vacant] new(now,step,max) insert keep=false <return>", "try_recv recv=Err err=Closed BUG-panic <diverge>",
                 "try_recv recv=Err err=Empty keep=true <return>"}
+        # the update-or-create step may be the explicit match on the entry or the entry API's and_modify/or_insert_with
+        up = "try_recv recv=Ok inner=Err entry and_modify{update(now,step,max)} or_insert_with{new(now,step,max)} keep=false <return>"
+        if up in ws:
+            want = {w for w in want if "[Occupied]" not in w and "[Vacant]" not in w} | {up}
         ob.count(len(ws))
         for w in sorted(ws - want):
             ob.fail("refuted", "drain/unexpected/" + w.replace(" ", "_")[:140], f"drain closure: path `{w}` not in the specified behaviour", d.path, d.loc(), path=w)
@@ -250,11 +294,17 @@ def run(cx):
         ok = idx[0] == "binop" and idx[1] == "Rem"
         if ok:
             num, den = strip_identity(idx[2]), strip_identity(idx[3])
-            ok = num[0] == "call" and name_matches(num[1], "Option::unwrap_or") and int_of(num[2][1]) == 0 and term_has_call(num, "HashMap::get") and mentions_field(num, "dial_backoff_states") \
+            # attempts-or-0: `get(id).map(|s| s.attempts).unwrap_or(0)` or `get(id).map_or(0, |s| s.attempts)`
+            form_a = num[0] == "call" and name_matches(num[1], "Option::unwrap_or") and int_of(num[2][1]) == 0
+            form_b = num[0] == "call" and name_matches(num[1], "Option::map_or") and int_of(num[2][1]) == 0
+            ok = (form_a or form_b) and term_has_call(num, "HashMap::get") and mentions_field(num, "dial_backoff_states") \
                 and den[0] == "call" and name_matches(den[1], "vec::Vec::len") and mentions_field(den, "address")
             if ok:
                 mp = strip_identity(num[2][0])
-                mc = [mp[2][1]] if mp[0] == "call" and name_matches(mp[1], "Option::map") and mp[2][1][0] == "agg" else []
+                if form_b:
+                    mc = [num[2][2]] if num[2][2][0] == "agg" else []
+                else:
+                    mc = [mp[2][1]] if mp[0] == "call" and name_matches(mp[1], "Option::map") and mp[2][1][0] == "agg" else []
                 kb = kids.get(mc[0][2]) if mc else None
                 r = strip_identity(Origins(kb).of_local(0)) if kb is not None else ("u",)
                 ok = r[0] == "field" and r[2] == "attempts"
